@@ -7,6 +7,7 @@ import numpy as np
 from hypothesis import strategies as st
 
 from refs import nasfield
+from vlib import defaults
 from vlib.core import Part
 
 PROPERTY = "C12"
@@ -325,4 +326,7 @@ PARTS = [
          fuzz=dict(modules=["pyyeti.nastran.bulk"], time=25, time_thorough=300), tmax_thorough=400),
     Part("fuzz_cards", oracle_cards, strategy=cards, quick=(2, 1500), thorough=(8, 60000),
          fuzz=dict(modules=["pyyeti.nastran.bulk"], time=25, time_thorough=300), tmax_thorough=400),
+    # documented defaults: leaving a keyword out = passing its documented value (vlib/defaults.py)
+    Part("defaults", defaults.make_oracle("C12"), enum=defaults.make_enum(), quick=(1, None), thorough=(1, None),
+         exhaustive=True),
 ]
